@@ -28,6 +28,12 @@ def load_claims():
 
 def main():
     load_claims()
+    acc = os.path.join(VERIF, "vlib", "accepted.txt")
+    if os.path.exists(acc):      # only checks the integrator has run and reviewed are claimed
+        ok = set(open(acc).read().split())
+        for k in list(CLAIMED):
+            if k not in ok:
+                del CLAIMED[k]
     props = [json.loads(l) for l in open(os.path.join(VERIF, "properties.jsonl"))]
     checks, na = [], []
     for p in props:
